@@ -39,6 +39,10 @@ const maxTasks = 512
 // goroutines started by the code under test).
 const MaxTasks = maxTasks
 
+// hangTicks is how many 100 ms ticks of real time every live task must stay
+// blocked inside the code under test before the run is called a deadlock.
+const hangTicks = 30
+
 // Config is fixed per run (drawn from the tape by the caller).
 type Config struct {
 	Mode       int
@@ -68,7 +72,8 @@ type Task struct {
 	// the baton), stArrived (back from it, waiting for the baton).
 	state     int32
 	keptBaton bool
-	selRot    int // rotation of the case order of the select being polled
+	selRot    int    // rotation of the case order of the select being polled
+	blockedAt string // label of the blocking operation the task is in (or was last in)
 }
 
 const (
@@ -136,6 +141,8 @@ type Sched struct {
 	BlockedWaits     int  // ... that really had to wait for another task
 	Deadlock         bool // every live task is blocked inside the code under test
 	giveUp           chan struct{}
+	allBlocked       int32 // set when the last task able to run ended while others are blocked
+	notes            [maxTasks][2]int64
 	self             *Task // the task executing BlockBegin (in limbo, but it is us)
 	stackBuf         []byte
 
@@ -622,6 +629,7 @@ func (s *Sched) BlockBegin(label string) {
 	if s.Yields > s.cfg.MaxYields || s.tape.Over {
 		s.Aborted = true
 	}
+	t.blockedAt = label
 	atomic.StoreInt32(&t.state, stLimbo)
 	s.self = t
 	next := s.pick(nil, KindOp, label)
@@ -693,9 +701,9 @@ func (s *Sched) finish(t *Task) {
 			atomic.StoreInt32(&next.state, stRunnable)
 			next.wake <- struct{}{}
 		} else {
-			// every remaining task is blocked inside the code under test
-			s.Deadlock = true
-			close(s.giveUp)
+			// every remaining task is blocked inside the code under test;
+			// Run watches whether that lasts
+			atomic.StoreInt32(&s.allBlocked, 1)
 		}
 	}
 	raceEnable()
@@ -788,19 +796,109 @@ func (s *Sched) Run(fns []func(*Task)) bool {
 		case <-timer.C:
 			return false
 		case <-tick.C:
-			// a task that kept the baton (nobody else could run) and is now
-			// parked inside its blocking operation will never come back
-			if s.keptAndBlocked() {
+			// A task that kept the baton (nobody else could run) and is now
+			// parked inside its blocking operation will not come back unless
+			// something outside the simulator (a timer) wakes it; likewise
+			// when the last runnable task ended and the others are blocked.
+			// If that lasts for HangAfter of real time the run is a deadlock.
+			switch s.watch() {
+			case watchBlocked:
 				suspect++
-				if suspect >= 2 {
+				if suspect >= hangTicks {
 					s.Deadlock = true
 					return false
 				}
-			} else {
+			default:
 				suspect = 0
 			}
 		}
 	}
+}
+
+const (
+	watchMoving = iota
+	watchBlocked
+)
+
+// watch is called from Run's goroutine every tick.
+//
+//go:norace
+func (s *Sched) watch() int {
+	if atomic.LoadInt32(&s.allBlocked) == 0 {
+		if s.keptAndBlocked() {
+			return watchBlocked
+		}
+		return watchMoving
+	}
+	// nobody holds the baton: has a blocked task come back (woken from
+	// outside the simulator)? Then scheduling resumes with it.
+	buf := make([]byte, 1<<20)
+	dump := buf[:runtime.Stack(buf, true)]
+	moving := false
+	for i := 0; i < s.n; i++ {
+		u := s.tasks[i]
+		if u.done {
+			continue
+		}
+		switch atomic.LoadInt32(&u.state) {
+		case stArrived:
+			atomic.StoreInt32(&s.allBlocked, 0)
+			raceDisable()
+			next := s.pick(nil, KindOp, "resume")
+			if next != nil {
+				s.cur = next.ID
+				atomic.StoreInt32(&next.state, stRunnable)
+				next.wake <- struct{}{}
+			}
+			raceEnable()
+			return watchMoving
+		case stLimbo:
+			if !goroutineBlocked(dump, u.goid) {
+				moving = true
+			}
+		}
+	}
+	if moving {
+		return watchMoving
+	}
+	return watchBlocked
+}
+
+// SetNote / Note are two integer slots per task for the workload's own
+// bookkeeping that must stay readable after a run that did not join (a
+// deadlock): like all kernel state they are invisible to the race detector.
+//
+//go:norace
+func (s *Sched) SetNote(task, slot int, v int64) {
+	if task >= 0 && task < maxTasks {
+		s.notes[task][slot] = v
+	}
+}
+
+//go:norace
+func (s *Sched) Note(task, slot int) int64 {
+	if task < 0 || task >= maxTasks {
+		return 0
+	}
+	return s.notes[task][slot]
+}
+
+// BlockedTasks returns, after a deadlock, the ids of the tasks blocked inside
+// the code under test and the labels of the operations they are blocked in.
+//
+//go:norace
+func (s *Sched) BlockedTasks() (ids []int, labels []string) {
+	for i := 0; i < s.n; i++ {
+		u := s.tasks[i]
+		if u.done {
+			continue
+		}
+		if atomic.LoadInt32(&u.state) == stLimbo || u.keptBaton {
+			ids = append(ids, u.ID)
+			labels = append(labels, u.blockedAt)
+		}
+	}
+	return
 }
 
 //go:norace
